@@ -7,7 +7,7 @@ from .sorts import (Val, Ev, SeqV, SeqE, SetV, MapV, I, B, S, clsof, issub, SV, 
 from . import spec as SP
 from .engine import Res, State, NoneV, Ob, Outcome
 from .frontend import loops_of
-from .sorts import SV as _SV
+from .sorts import SV as SP_SV
 
 
 def split_conj(src):
@@ -180,8 +180,20 @@ class LoopMixin:
         return SV("tuple", None, x=[SV("val", el), val])
 
     def havoc_locals(self, st, names, spec):
-        decl = spec.get("locals", {}) if isinstance(spec, dict) else {}
-        for name in sorted(names):
+        decl = dict(spec.get("locals", {})) if isinstance(spec, dict) else {}
+        if self.cur is not None and st.fid == getattr(self, "root_fid", None):
+            order = self.local_order()
+            for alias, k in self.cur.extra.get("aliases", {}).items():
+                if alias in decl and k < len(order):
+                    decl[order[k]] = decl.pop(alias)
+        for name in sorted(set(names) | set(decl)):
+            if name in decl and name not in names:
+                cur = st.frames[st.fid].get(name)
+                if cur is not None and cur.k in ("list", "dict") and decl[name].startswith(cur.k):
+                    # not reassigned in the loop: same object, declared element type
+                    nv = SP_SV(cur.k, cur.t, h=(decl[name][len(cur.k) + 1:-1] if "[" in decl[name] else None), x=cur.x)
+                    st.frames[st.fid][name] = nv
+                    continue
             cur = None
             f = st.fid
             if name in st.frames[f]:
@@ -204,20 +216,75 @@ class LoopMixin:
             else:
                 st.frames[f][name] = SV("val", self.fresh("lv_" + name, Val), h=cur.h if cur.k == "val" else None)
 
+    def local_order(self):
+        """names of the verified function's locals in order of first assignment (aliases are ordinals into this list, so
+        renaming a local does not touch any contract)"""
+        fn = self.cur_fn
+        cached = getattr(self, "_local_order", None)
+        if cached and cached[0] is fn:
+            return cached[1]
+        order = []
+
+        def tgt(t):
+            if isinstance(t, ast.Name):
+                if t.id not in order:
+                    order.append(t.id)
+            elif isinstance(t, (ast.Tuple, ast.List)):
+                for x in t.elts:
+                    tgt(x)
+
+        def visit(n):
+            if isinstance(n, (ast.FunctionDef, ast.Lambda, ast.ClassDef)):
+                if isinstance(n, ast.FunctionDef) and n.name not in order:
+                    order.append(n.name)
+                return
+            if isinstance(n, ast.Assign):
+                for t in n.targets:
+                    tgt(t)
+            elif isinstance(n, (ast.AugAssign, ast.AnnAssign, ast.For)):
+                tgt(n.target)
+            elif isinstance(n, ast.With):
+                for it in n.items:
+                    if it.optional_vars is not None:
+                        tgt(it.optional_vars)
+            elif isinstance(n, ast.ExceptHandler) and n.name and n.name not in order:
+                order.append(n.name)
+            for ch in ast.iter_child_nodes(n):
+                visit(ch)
+        for stmt in fn.body:
+            visit(stmt)
+        self._local_order = (fn, order)
+        return order
+
+    def alias_values(self, st):
+        out = {}
+        if self.cur is None:
+            return out
+        order = self.local_order()
+        fr = st.frames.get(self.root_fid, {})
+        for alias, k in self.cur.extra.get("aliases", {}).items():
+            if k < len(order) and order[k] in fr and fr[order[k]] is not None:
+                out[alias] = fr[order[k]]
+        return out
+
     def inv_eval(self, st, spec, extra, label_prefix, emit):
         """emit/assume the loop invariant in state st (extra: special names)"""
         fid = st.fid
+        extra = dict(extra)
+        if fid == getattr(self, "root_fid", None):
+            extra.update(self.alias_values(st))
         saved = {}
         for k2, v in extra.items():
             saved[k2] = st.frames[fid].get(k2)
             st.frames[fid][k2] = v
         try:
-            for label, src, props in spec["inv"]:
-                g = self.spec_eval(st, src, fid, st.heap0, st.entry_frame, {})
-                if emit:
-                    self.emit(st, "%s:%s" % (label_prefix, label), g, "inv", props)
-                else:
-                    st.assume(g)
+            for label, src0, props in spec["inv"]:
+                for sub, src in (split_conj(src0) if emit else [("", src0)]):
+                    g = self.spec_eval(st, src, fid, st.heap0, st.entry_frame, {})
+                    if emit:
+                        self.emit(st, "%s:%s%s" % (label_prefix, label, sub), g, "inv", props)
+                    else:
+                        st.assume(g)
         finally:
             for k2, v in saved.items():
                 if v is None:
